@@ -24,10 +24,12 @@ VERIF = vbuild.VERIF
 
 def load_known():
     opens, fixed = [], []
-    p = os.path.join(VERIF, "KNOWN_FINDINGS.txt")
-    if not os.path.exists(p):
-        return opens, fixed
-    for ln in open(p):
+    import glob
+    lines = []
+    for p in [os.path.join(VERIF, "KNOWN_FINDINGS.txt")] + sorted(glob.glob(os.path.join(VERIF, "KNOWN_FINDINGS.d", "*.txt"))):
+        if os.path.exists(p):
+            lines += open(p).read().splitlines()
+    for ln in lines:
         ln = ln.strip()
         if not ln or ln.startswith("#"):
             continue
@@ -85,7 +87,7 @@ def run_pass(pid, cfg, pas, tier, replay_rec, deadline_s, workdir):
                "--deadline-s", str(deadline_s)] + list(pas.get("args", ()))
         if replay_rec:
             cmd += ["--replay-check", replay_rec["check"], "--replay-params",
-                    json.dumps(replay_rec["params"], separators=(",", ":"))]
+                    replay_rec.get("params_str") or json.dumps(replay_rec["params"], separators=(",", ":"))]
         log = open(out + ".log", "w")
         procs.append((subprocess.Popen(cmd, stdout=log, stderr=subprocess.STDOUT, env=env), out, log, cmd))
     res = []
